@@ -540,6 +540,11 @@ PRESENTED = {'how': 'plain', 'n': 0}
 SECTION_HEAD = 'earlier = 1\nprint(earlier + earlier, [earlier] * 2)\nfor e in [earlier]:\n    earlier = e\n##### Part 1'
 
 
+def kw():
+    """the report= argument of every question about the program that present() installed"""
+    return {'report': PRESENTED['report']} if PRESENTED.get('report') is not None else {}
+
+
 def present(ctx, src, how=None, fresh=False):
     """Install `src` as the program the questions are about and return the text that is now the submission's main code.
     'plain': contextualize_report(src).
@@ -552,10 +557,21 @@ def present(ctx, src, how=None, fresh=False):
     from pedal.core.commands import clear_report, contextualize_report
     from pedal.core.report import MAIN_REPORT
     clear_report()
+    PRESENTED['report'] = None
     if how is None:
         PRESENTED['n'] += 1
-        how = {0: 'second-section', 4: 'after-verifying-other-code', 8: 'after-sections-were-stopped', 10: 'attached-without-clearing'}.get(PRESENTED['n'] % 12, 'plain')
+        how = {0: 'second-section', 4: 'after-verifying-other-code', 6: 'on-a-report-of-its-own', 8: 'after-sections-were-stopped', 10: 'attached-without-clearing'}.get(PRESENTED['n'] % 12, 'plain')
         fresh = True
+    if how == 'on-a-report-of-its-own':
+        # the grader keeps this submission's report to herself and passes it to every question (kw()); the default report holds
+        # another submission meanwhile
+        from pedal.core.report import Report
+        contextualize_report('the_default_reports_program = 1\nprint(the_default_reports_program)\nfor other in [the_default_reports_program]:\n    pass\n')
+        PRESENTED['report'] = Report()
+        contextualize_report(src, report=PRESENTED['report'])
+        PRESENTED['how'] = how
+        ctx.seen('how_the_program_is_presented', how)
+        return src
     if fresh:
         if '##### Part' in src or '\r' in src or '\x0c' in src:
             how = 'plain'
